@@ -79,7 +79,7 @@ static std::string err_class(const std::string& m)
 		{"without a loop start", "loopCmdWithoutStart"}, {"note out of range", "noteRange"}, {"drum mode routine is inside", "drumNoteInLoop"}, {"Drum mode subroutine", "drumMissing"}, {"MDSDRV: Subroutine", "subMissing"},
 		{"MDSDRV: Platform command", "platformMissing"}, {"not enough parameters", "platformBad"}, {"argument must be", "platformBad"}, {"empty platform command", "platformBad"},
 		{"MDSDRV: Instrument @", "insMissing"}, {"has wrong type", "insType"}, {"Macro track", "macroMissing"},
-		{"Pitch envelope @M", "pitchMissing"},
+		{"Pitch envelope @M", "pitchMissing"}, {"without a loop start", "loopCmd"},
 	};
 	for(auto& t : tab)
 		if(m.find(t.pat) != std::string::npos) return t.cls;
